@@ -15,7 +15,7 @@ NONTRIVIAL_RULE = (
 )
 EXPLANATION = (
     "Solver-enumerated nestings of with-action / action.context() / action.run(f) / re-entry of an enclosing "
-    "action / generator bodies closed early, each level left normally or by an exception caught j levels out; "
+    "action / generator bodies closed early / finish() of the current action inside its own block, each level left normally or by an exception caught j levels out; "
     "current_action() is compared (object identity) with a reference stack after every entry, exit and logging "
     "call, and the task_uuid/task_level of everything logged is compared with the action that was current."
 )
